@@ -51,13 +51,13 @@ func (p impProg) text(id string) string {
 		T, v1, v2 = id+"_S", id+"_S{c.V(1)}", id+"_S{2}"
 		pre = fmt.Sprintf("type %s_S struct{ a int }\n\n", id)
 	case "pointer":
-		T, v1, v2 = "*int", "new(int)", "nil"
+		T, v1, v2 = "*int", "new(int)", "(*int)(nil)"
 	case "func":
 		T, v1, v2 = "func() int", "func() int { return c.V(1) }", "func() int { return 2 }"
 	case "any":
-		T, v1, v2 = "any", "any(c.V(1))", "nil"
+		T, v1, v2 = "any", "any(c.V(1))", "any(nil)"
 	case "slice":
-		T, v1, v2 = "[]int", "[]int{c.V(1)}", "nil"
+		T, v1, v2 = "[]int", "[]int{c.V(1)}", "[]int(nil)"
 	case "iter":
 		T = q + "Iter[int]"
 		v1 = fmt.Sprintf("func() %sIter[int] { %sYield(c.V(1)); return nil }()", q, q)
@@ -125,7 +125,7 @@ func (p impProg) text(id string) string {
 		sb.WriteString(fmt.Sprintf("\tg := func() %s {\n\t\tmk := func() %s {\n\t\t\tc.E(7)\n\t\t\treturn func() %s {\n%s\t\t\t}()\n\t\t}\n\t\t%sYieldFrom(mk())\n\t\treturn nil\n\t}\n", iterT, iterT, res, body("\t\t\t\t"), q))
 		get = "g()"
 	}
-	sb.WriteString(fmt.Sprintf("\tfor v := range %s {\n\t\tc.X(8, %s)\n\t}\n\tc.E(9)\n}\n", get, show))
+	sb.WriteString(fmt.Sprintf("\tsrc := %s\n\tfor v := range src {\n\t\tc.X(8, %s)\n\t}\n\tc.E(9)\n}\n", get, show))
 	return sb.String()
 }
 
